@@ -4,7 +4,7 @@ GO_LIBS = "Go runtime, standard library and third-party modules as pinned in /re
 
 PROPS = {
     "C17": dict(
-        lean=["Upf.Props.C17"],
+        lean=["Upf.Props.C17", "Upf.Proofs.GenEqPort"],
         claim="Theorems for all 2^32 (low, high) pairs and both strategies: accepted expansions match exactly the denoted ports "
               "(trivial/exact/ternary/product cover), wildcard only for 0-65535 or 0-0, refused iff not representable. "
               "The model is tied to parse_pdr.go by trace acceptance on denoted port sets and by regenerated leaf predicates.",
@@ -17,6 +17,20 @@ PROPS = {
         trusted_base=["hook wrappers in pfcpiface/verif_hooks.go (field-for-field copies)", GO_LIBS,
                       "strconv.ParseUint / strings.Split modelled by hand (parseU16, splitOn), validated by the run"],
         assumptions=["the denoted-port-set oracle (interval arithmetic in lean/Check/C17.lean) is cross-checked by brute force on every 257th case"],
+    ),
+    "C06": dict(
+        lean=["Upf.Props.C06"],
+        claim="Theorems for every pool, session id and operation sequence (no bound): construction yields exactly the addresses strictly "
+              "between network and broadcast; the invariant (free ++ held is a permutation of the pool, no session twice) holds in every "
+              "reachable state, hence in-range, exclusive, conserved; sticky; released exactly; refused iff nothing free. Concurrency: the "
+              "regenerated lock facts (every method touching the state holds the mutex) instantiate the lockset theorem.",
+        note="Trusted: Lean kernel + standard axioms; sync.Mutex and the Go memory model; net.ParseCIDR (modelled as mask arithmetic on BitVec 32, "
+             "validated by the run); the syntactic lock-fact extractor. IPv6 pools are outside the model.",
+        rule="pool construction for /16../32 on 7 base addresses (aligned, unaligned, top of address space), malformed subnets; "
+             "bounded-exhaustive alloc/release sequences on /30 (3 sessions) and /29 (7 sessions); random sequences with more sessions than addresses; "
+             "32-goroutine allocate/release/re-allocate runs and 16-goroutine contention on one session id; non-trivial = at least one successful allocation",
+        trusted_base=[GO_LIBS, "sync.Mutex / Go memory model", "net.ParseCIDR"],
+        assumptions=["IPv4 pools only"],
     ),
 }
 
